@@ -178,6 +178,86 @@ def check_name(name: str, t: Tally, build_class: bool) -> List[Violation]:
     return uniq
 
 
+def field_keys(name: str):
+    """(python field name, the keys that must map back to it) or None when the name is unusable."""
+    try:
+        py = naming.pythonize_field_name(name)
+    except Exception:
+        return None
+    if not safe(py):
+        return None
+    return py, {casing.camel_case(py).rstrip("_"), casing.snake_case(py).rstrip("_"), name, py}
+
+
+def pair_groups(maxlen: int):
+    """Identifiers that are equal up to letter case and underscores, grouped."""
+    import collections
+    g = collections.defaultdict(list)
+    for n in identifiers(maxlen):
+        g[n.replace("_", "").lower()].append(n)
+    return [v for _, v in sorted(g.items()) if len(v) > 1]
+
+
+def check_pair(a: str, b: str, t: Tally) -> List[Violation]:
+    """Two fields of ONE message whose names differ only in case / underscores: every key of each
+    still maps back to its own field (pairs whose legitimate keys coincide are skipped: protoc
+    rejects those for their conflicting JSON names)."""
+    out: List[Violation] = []
+    ka, kb = field_keys(a), field_keys(b)
+    if ka is None or kb is None or ka[0] == kb[0] or (ka[1] & kb[1]):
+        return out
+    t.inc("pairs")
+
+    def bad(oracle: str, detail: str):
+        out.append(Violation(["names", oracle, "pair:" + shape(a) + "+" + shape(b)],
+                             f"fields {a!r} and {b!r} in one message: {detail}"[:400], {"pair": [a, b]}))
+
+    import dataclasses
+    try:
+        cls = dataclasses.make_dataclass(
+            "N2", [(ka[0], int, betterproto.int32_field(1)), (kb[0], int, betterproto.int32_field(2))],
+            bases=(betterproto.Message,), eq=False, repr=False)
+        cls.__module__ = "vf_c19_mod"
+        m = cls(**{ka[0]: 7, kb[0]: 9})
+        for cs in (betterproto.Casing.CAMEL, betterproto.Casing.SNAKE):
+            d = m.to_dict(casing=cs)
+            back = cls().from_dict(d)
+            t.inc("edges", 2)
+            if len(d) != 2 or getattr(back, ka[0]) != 7 or getattr(back, kb[0]) != 9:
+                bad("pair-round-trip", f"to_dict({cs.__name__ if hasattr(cs, '__name__') else cs}) = {d!r} reads back as {back!r}")
+        for (py, keys), (opy, _), val in ((ka, kb, 7), (kb, ka, 9)):
+            for k in sorted(keys):
+                back = cls().from_dict({k: val})
+                t.inc("edges")
+                if getattr(back, py) != val or getattr(back, opy) != 0:
+                    bad("pair-key-misrouted", f"from_dict({{{k!r}: {val}}}) gives {back!r}; the key belongs to field {py!r}")
+    except Exception as e:
+        bad("pair-raised", f"{type(e).__name__}: {e}")
+    seen, uniq = set(), []
+    for v in out:
+        k = tuple(v.signature)
+        if k not in seen:
+            seen.add(k)
+            uniq.append(v)
+    return uniq
+
+
+def _shard_pairs(shard: int, nshards: int, maxlen: int) -> Tally:
+    import sys, types
+    sys.modules.setdefault("vf_c19_mod", types.ModuleType("vf_c19_mod"))
+    t = Tally()
+    i = 0
+    for grp in pair_groups(maxlen):
+        for x in range(len(grp)):
+            for y in range(x + 1, len(grp)):
+                i += 1
+                if i % nshards != shard:
+                    continue
+                for v in check_pair(grp[x], grp[y], t):
+                    t.violate(v, cap_per_sig=1)
+    return t
+
+
 def _shard(shard: int, nshards: int, maxlen: int) -> Tally:
     import sys, types
     sys.modules.setdefault("vf_c19_mod", types.ModuleType("vf_c19_mod"))
@@ -201,7 +281,9 @@ def _shard(shard: int, nshards: int, maxlen: int) -> Tally:
 def run(ctx: Ctx) -> None:
     maxlen = 6 if ctx.quick else 7
     t = merge_tallies(pmap_shards(_shard, 64, maxlen))
-    for vj in t.violations:
+    pair_len = 4 if ctx.quick else 5
+    tp = merge_tallies(pmap_shards(_shard_pairs, 64, pair_len))
+    for vj in t.violations + tp.violations:
         ctx.add(Violation.from_json(vj))
     ctx.coverage.update(
         states=t.n.get("names", 0),
@@ -210,7 +292,10 @@ def run(ctx: Ctx) -> None:
         exhaustive=True,
         identifiers=t.n.get("names", 0),
         max_identifier_length=maxlen,
-        real_classes_built=t.n.get("classes", 0),
+        real_classes_built=t.n.get("classes", 0) + tp.n.get("pairs", 0),
+        two_field_messages=tp.n.get("pairs", 0),
+        two_field_rule="all pairs of identifiers of length <= %d that are equal up to letter case and "
+                       "underscores and whose legitimate keys are disjoint, as two fields of one message" % pair_len,
         identifier_shapes=len(t.sets.get("shapes", ())),
         protoc_json_name_not_accepted_recorded=t.n.get("protoc_json_name_not_accepted_recorded", 0),
         samples=t.samples or [{"identifier": "address_line_1"}],
@@ -227,4 +312,6 @@ def run(ctx: Ctx) -> None:
 def replay(case: dict) -> List[Violation]:
     import sys, types
     sys.modules.setdefault("vf_c19_mod", types.ModuleType("vf_c19_mod"))
+    if "pair" in case:
+        return check_pair(case["pair"][0], case["pair"][1], Tally())
     return check_name(case["name"], Tally(), True)
